@@ -18,7 +18,7 @@ RULE = ('case = (1..3 producers with 0..4 elements and distinct return values, b
         'operation; oracle = history invariant: multiset received == produced, per (consumer, producer) order, every consumer ends '
         'with StopIteration carrying all return values, all producers return, no deadlock; non-trivial = >= 2 threads on the queue, '
         '>= 1 preemption and a blocked wait on full or empty; distinct = distinct canonical case JSON (schedule included)'
-        '; also: producer return values of many kinds (falsy scalars, tuple/list/dict/ndarray as one value), streams of 257..300 elements')
+        '; also: a caller-supplied bounded queue object without a maxsize attribute, producer return values of many kinds (falsy scalars, tuple/list/dict/ndarray as one value), streams of 257..300 elements')
 ASSUMPTIONS = [
     'shimmed primitives implement the documented stdlib semantics (mutual exclusion, Condition.wait releases and re-acquires, '
     'notify wakes only threads already waiting, no spurious wake-ups, Queue capacity); self-tested in tools/selftest_dsched.py',
@@ -83,6 +83,36 @@ def consumer_body(q, mode, n, out, poll_sleep):
       return e.args
 
 
+class RingQueue:
+  """A caller-supplied queue object: the documented protocol (get_nowait / put_nowait / empty) and nothing else - in
+  particular no `maxsize` attribute, although it is bounded (cap) - with the scheduler's yield points."""
+
+  def __init__(self, cap):
+    import collections  # pylint: disable=g-import-not-at-top
+    self.cap = cap
+    self.items = collections.deque()
+
+  def put_nowait(self, x):
+    import queue  # pylint: disable=g-import-not-at-top
+    dsched.S().yield_('RingQueue.put_nowait')
+    if self.cap and len(self.items) >= self.cap:
+      raise queue.Full
+    self.items.append(x)
+
+  def get_nowait(self):
+    import queue  # pylint: disable=g-import-not-at-top
+    dsched.S().yield_('RingQueue.get_nowait')
+    if not self.items:
+      raise queue.Empty
+    return self.items.popleft()
+
+  def empty(self):
+    return not self.items
+
+  def qsize(self):
+    return len(self.items)
+
+
 def run_case(case):
   from ml_metrics._src.utils import iter_utils  # pylint: disable=g-import-not-at-top
   prods, cons = case['producers'], case['consumers']
@@ -96,7 +126,8 @@ def run_case(case):
   what += f' return values={rets}'
 
   def main():
-    q = iter_utils.IteratorQueue(case['buffer'], max_enqueuer=len(prods), max_batch_size=case['max_batch_size'], name='q')
+    q = iter_utils.IteratorQueue(RingQueue(case['buffer']) if case.get('queue_object') else case['buffer'], max_enqueuer=len(prods),
+                                 max_batch_size=case['max_batch_size'], name='q')
     box['q'] = q
 
     def producer(i):
@@ -175,7 +206,7 @@ def strat(tier):
                          min_size=1, max_size=3))
     case = {'producers': prods, 'buffer': draw(st.sampled_from([0, 1, 1, 2, 3])), 'consumers': cons,
             'max_batch_size': draw(st.sampled_from([0, 0, 1, 2])), 'schedule': draw(schedule_strategy()),
-            'rets': [draw(st.sampled_from(RET_KINDS)) for _ in prods]}
+            'rets': [draw(st.sampled_from(RET_KINDS)) for _ in prods], 'queue_object': draw(st.integers(0, 3)) == 0}
     if draw(st.integers(0, 99)) == 0:
       # a long stream that an iterating consumer may receive as one batch of more than 2**8 elements
       case.update(producers=draw(st.sampled_from([[257], [300], [150, 150]])), buffer=0, consumers=[{'mode': 'iter', 'n': 1}],
